@@ -10,6 +10,7 @@
 import PCV.Proofs.StreamKZGVerify
 import PCV.Proofs.Roots
 import PCV.Proofs.RootsCoeff
+import PCV.Proofs.KZG10Extract
 
 set_option linter.unusedSectionVars false
 
@@ -186,6 +187,44 @@ theorem colErr_exceptional_eta (ps : List (List F)) (evals : List (List F)) (z :
   · intro η hη h0
     rw [colErr_eq_evalPoly ps evals η z j hcl] at h0
     exact hη (hS η h0)
+
+
+/-! ### single point -/
+
+/-- **`verify`, algebraic proof element.** `C = g·p(τ)`, `π = g·a(τ)`, any claimed value `v`: acceptance is
+`p(τ) − v − a(τ)(τ − α) = 0`, the KZG10 extraction polynomial at the trapdoor. -/
+theorem single_forgery_root (g g2 τ : F) (a' b : Nat) (ha : 1 ≤ a') (hb : 2 ≤ b) (p a : List F)
+    (α v : F) (hg : g ≠ 0) (hg2 : g2 ≠ 0) :
+    verify ⟨PCV.powers g τ a', PCV.powers g2 τ b⟩ (g * evalPoly p τ) α v (g * evalPoly a τ) = .ok true
+      ↔ evalPoly (KZG.extractPoly p a α v) τ = 0 := by
+  rw [verify_wf' g g2 τ a' b ha hb, KZG.eval_extractPoly]
+  simp only [Except.ok.injEq, decide_eq_true_eq]
+  constructor
+  · intro h
+    have : g * g2 * (evalPoly p τ - v - evalPoly a τ * (τ - α)) = 0 := by linear_combination h
+    rcases mul_eq_zero.1 this with h2 | h2
+    · rcases mul_eq_zero.1 h2 with h3 | h3
+      · exact absurd h3 hg
+      · exact absurd h3 hg2
+    · exact h2
+  · intro h
+    linear_combination g * g2 * h
+
+/-- for a false value all but at most `max(|p|, |a|+1) − 1` trapdoors refuse -/
+theorem single_forgery_exceptional_set (p a : List F) (α v : F) (hv : v ≠ evalPoly p α) :
+    ∃ S : Finset F, S.card ≤ max (max p.length 1) (a.length + 1) - 1 ∧
+      ∀ (g g2 τ : F) (a' b : Nat), g ≠ 0 → g2 ≠ 0 → 1 ≤ a' → 2 ≤ b → τ ∉ S →
+        verify ⟨PCV.powers g τ a', PCV.powers g2 τ b⟩ (g * evalPoly p τ) α v (g * evalPoly a τ)
+          ≠ .ok true := by
+  have hne : ∃ x, evalPoly (KZG.extractPoly p a α v) x ≠ 0 := by
+    refine ⟨α, ?_⟩
+    rw [KZG.eval_extractPoly]
+    simp only [sub_self, mul_zero, sub_zero]
+    exact fun h0 => hv (sub_eq_zero.1 h0).symm
+  obtain ⟨S, hcard, hS⟩ := Roots.zeros_bounded (KZG.extractPoly p a α v) hne
+  refine ⟨S, le_trans hcard (Nat.sub_le_sub_right (KZG.extractPoly_length p a α v) 1), ?_⟩
+  intro g g2 τ a' b hg hg2 ha hb hτ hacc
+  exact hτ (hS τ ((single_forgery_root g g2 τ a' b ha hb p a α v hg hg2).1 hacc))
 
 end SKZG
 end PCV
